@@ -2,13 +2,13 @@
    Proved here: the buffer-mode decoder for interface{} (Unmarshal(b, &v)).
    The skip functions the typed decoders use for the parts of a document the
    destination has no place for (skipValue, skipObject, skipArray, buffer mode)
-   are modelled too (Model/Skip.v): they step over every RFC 8259 value exactly,
-   and -- the recorded finding SkipUnvalidated -- over texts that are no values.
+   are modelled too (Model/Skip.v): since their repair they step over exactly
+   the RFC 8259 values (the finding SkipUnvalidated is gone for buffer mode).
    The stream decoder (Decoder.Decode, Valid) and the other typed destinations
    are compared with the oracle on every run, not modelled. *)
 From Coq Require Import NArith ZArith List Bool.
 From GJ Require Import Base.Bytes Gen.Tables Model.Int Model.Compact Model.Iface Model.Skip Spec.Json
-  Proofs.JsonSpecP Proofs.IfaceP Proofs.SkipP.
+  Proofs.JsonSpecP Proofs.IfaceP Proofs.CompactP Proofs.SkipP Gen.SkipShape.
 Import ListNotations.
 Open Scope N_scope.
 
@@ -38,20 +38,26 @@ Proof.
 Qed.
 Print Assumptions C05_iface_accepts_only_rfc.
 
-(* 3. the skip functions are complete: every value of the language the interface decoder accepts at
-      nesting depth d is stepped over, whatever follows it, and the cursor lands right behind it: a
-      valid document is never refused, or read differently, because the destination skips a part of it *)
-Theorem C05_skip_steps_over_every_value : forall f d l ts rest,
-  pg_value (Some Iface.max_depth) allnum f d l = Some (ts, rest) ->
-  sk_value (Z.of_nat d) (l ++ [0]) = SOk (rest ++ [0]).
-Proof. exact skip_value_complete. Qed.
-Print Assumptions C05_skip_steps_over_every_value.
-
-(* ... but they are not sound: the recorded finding SkipUnvalidated, as a theorem about the model
-   ("[1 2 }}]" is no JSON text and is stepped over as one value) *)
-Theorem C05_skip_accepts_non_json_refuted :
-  exists data, rfc_json data = false /\ sk_value 1 (data ++ [0]) = SOk [0].
-Proof. exact skip_value_lenient_refuted. Qed.
+(* 3. the skip functions (buffer mode; repaired in d699780, before that they only counted brackets) accept EXACTLY the
+      values of the grammar: at every nesting depth d and whatever follows, a value is stepped over with the cursor
+      right behind it, and nothing that is not a value is stepped over -- no destination makes decoding succeed because
+      it ignores a part of the text that is not JSON *)
+Theorem C05_skip_steps_over_exactly_the_values : forall d ls,
+  sk_value d (ls ++ [0]) =
+  match pg_value clim allnum (2 * length (ls ++ [0]) + 2) d ls with
+  | Some (_, rest) => SOk (rest ++ [0])
+  | None => SErr
+  end.
+Proof. exact skip_value_spec. Qed.
+Print Assumptions C05_skip_steps_over_exactly_the_values.
+Theorem C05_skip_sound : forall d ls r, sk_value d (ls ++ [0]) = SOk r ->
+  exists ts rest, pg_value clim allnum (2 * length (ls ++ [0]) + 2) d ls = Some (ts, rest) /\ r = rest ++ [0].
+Proof. exact skip_value_sound. Qed.
+(* the limits of the two packages are one number, and the source is the validating one (translator) *)
+Theorem C05_skip_source : Z.to_nat dec_maxDecodeNestingDepth = c_max_depth /\ skip_validates = true.
+Proof. split; reflexivity. Qed.
+Example C05_skip_refuses_non_json : skip_run [91; 49; 32; 50; 32; 125; 125; 93] = SErr.
+Proof. exact skip_refuses_non_json. Qed.
 
 (* the nesting limit is the one in the source *)
 Example C05_limit : Iface.max_depth = 10000%nat.
